@@ -329,13 +329,25 @@ package composite
 //@ props C10
 //@ sweep
 
+// A patch is applied in the direction its type says (an unset type means from the XR), between
+// the two objects given, and not at all when a filter is set that does not list its type.
+//@ macro TYPEOF(p) = ite(p.Type == "", v1.PatchTypeFromCompositeFieldPath, p.Type)
+//@ macro WANTED(p, only) = len(only) == 0 || exists j :: 0 <= j && j < len(only) && only[j] == p.Type
 //@ func composite.ApplyToObjects
 //@ props C10
 //@ sweep
+//@ optional site composite.ApplyFromFieldPathPatch($q, $from, $to) as field-path-patch
+//@   assert [C10:field-path-patch-runs-in-the-direction-of-its-type] WANTED(p, only) && ((TYPEOF(p) == v1.PatchTypeFromCompositeFieldPath && $from == cp && $to == cd) || (TYPEOF(p) == v1.PatchTypeToCompositeFieldPath && $from == cd && $to == cp))
+//@ optional site composite.ApplyCombineFromVariablesPatch($q, $from, $to) as combine-patch
+//@   assert [C10:combine-patch-runs-in-the-direction-of-its-type] WANTED(p, only) && ((TYPEOF(p) == v1.PatchTypeCombineFromComposite && $from == cp && $to == cd) || (TYPEOF(p) == v1.PatchTypeCombineToComposite && $from == cd && $to == cp))
 
 //@ func composite.filterPatch
 //@ props C10
 //@ sweep
+//@ frame fresh-only
+//@ loop range only
+//@   invariant [C10:type-not-listed-so-far] forall j :: 0 <= j && j < done ==> ranged[j] != p.Type
+//@ ensures [C10:a-patch-is-filtered-out-iff-a-filter-is-set-and-does-not-list-its-type] result <==> !(WANTED(p, only))
 
 //@ func composite.ResolveTransforms
 //@ props C10
@@ -405,12 +417,25 @@ package composite
 
 // Rendering reports success only if every single patch was applied without error (a failed
 // patch is never masked by a later one), and applies the patches of the right direction only.
+// The two directions of patching: rendering a composed resource applies only the patches that
+// read from the XR; the way back applies only the patches that write to the XR.
+//@ func composite.patchTypesFromXR
+//@ props C10
+//@ frame fresh-only
+//@ ensures [C10:patch-types-that-read-from-the-xr] len(result) == 2 && result[0] == v1.PatchTypeFromCompositeFieldPath && result[1] == v1.PatchTypeCombineFromComposite
+
+//@ func composite.patchTypesToXR
+//@ props C10
+//@ frame fresh-only
+//@ ensures [C10:patch-types-that-write-to-the-xr] len(result) == 2 && result[0] == v1.PatchTypeToCompositeFieldPath && result[1] == v1.PatchTypeCombineToComposite
+
 //@ func composite.RenderFromCompositePatches
 //@ props C10
 //@ sweep
 //@ ghost patchFailed bool = false
 //@ site composite.Apply($p, $xr, $cd, $only...)
 //@   assert [C10:patch-applied-between-the-given-resources] $xr == xr && $cd == cd
+//@   assert [C10:only-patches-that-read-from-the-xr-render-the-composed-resource] len($only) == 2 && $only[0] == v1.PatchTypeFromCompositeFieldPath && $only[1] == v1.PatchTypeCombineFromComposite
 //@   update patchFailed = patchFailed || err != nil
 //@ loop range p
 //@   invariant [C10:no-failed-patch-so-far] !patchFailed
@@ -422,6 +447,7 @@ package composite
 //@ ghost patchFailed bool = false
 //@ site composite.Apply($p, $xr, $cd, $only...)
 //@   assert [C10:patch-applied-between-the-given-resources] $xr == xr && $cd == cd
+//@   assert [C10:only-patches-that-write-to-the-xr-are-applied-on-the-way-back] len($only) == 2 && $only[0] == v1.PatchTypeToCompositeFieldPath && $only[1] == v1.PatchTypeCombineToComposite
 //@   update patchFailed = patchFailed || err != nil
 //@ loop range p
 //@   invariant [C10:no-failed-patch-so-far] !patchFailed
